@@ -634,6 +634,10 @@ def undefine_unused_variables(source: str, preserve: Collection[str] = frozenset
     """
     root = core.parse(source)
 
+    if any(core.walk(root, ast.Name(id="_", ctx=ast.Load))):
+        # _ is read (e.g. as an alias of gettext), so here it is a variable like any other
+        return
+
     # It's sketchy to figure out if class properties and stuff are used. Will not
     # support this for the time being.
     class_body_blacklist = set()
